@@ -755,6 +755,10 @@ def count_branches(real, res):
             open_tags.append(tag)
             for a, v in e[2]:
                 an = qtext(a)
+                if an == 'type' and '&' in v and 'input' in tag.lower():
+                    res.count('branch:input-type-with-reference')
+                    if '&amp;' in v:
+                        res.count('branch:input-type-with-nested-reference')
                 if an in r['safe_attrs'] and an in r['uri_attrs']:
                     res.count('branch:uri-attribute-seen')
                     if ':' in v:
